@@ -175,6 +175,7 @@ struct Raw {
 
 impl Tracked {
     pub fn new(id: u64) -> Tracked {
+        let _nc = crate::mem::NoCount::new();
         let mut l = ledger();
         let serial = l.register(id, false);
         Tracked {
@@ -208,6 +209,7 @@ impl Tracked {
 
     /// Checks a value handed to the consumer by the queue (moved out or cloned).
     pub fn check_delivered(&self) -> Seen {
+        let _nc = crate::mem::NoCount::new();
         let r = self.raw();
         let mut l = ledger();
         if r.exec == l.exec {
@@ -232,6 +234,7 @@ impl Tracked {
 
     /// The observation a view closure makes: check, scheduling point, check again.
     pub fn view(&self) -> Seen {
+        let _nc = crate::mem::NoCount::new();
         let a = self.raw();
         {
             let mut l = ledger();
@@ -277,6 +280,7 @@ impl Tracked {
 
 impl Clone for Tracked {
     fn clone(&self) -> Tracked {
+        let _nc = crate::mem::NoCount::new();
         let a = self.raw();
         {
             let mut l = ledger();
@@ -325,6 +329,7 @@ impl Clone for Tracked {
 
 impl Drop for Tracked {
     fn drop(&mut self) {
+        let _nc = crate::mem::NoCount::new();
         let r = self.raw();
         let mut l = ledger();
         if r.exec != l.exec {
